@@ -89,7 +89,7 @@ mutual
 def prE (d : Gen.D) : Expr → P
   | .column t c => .ok (columnSrc d t c)
   | .literal v => .ok v
-  | .wildcard t => .ok (match t with | some t => s!"{t}.*" | none => "*")
+  | .wildcard t => .ok (match t with | some t => s!"{quoteName t}.*" | none => "*")
   | .func s n ps => (prList d ps).map fun p => s!"{fnameSrc s n}({joinS ", " p})"
   | .agg n ps dist => (prList d ps).map fun p => s!"{n}({if dist then "DISTINCT " else ""}{joinS ", " p})"
   | .cast e sg ty ps => do
@@ -376,7 +376,7 @@ def prStmt (d : Gen.D) : Stmt → P
   | .insertSelect h q => do let hd ← prInsertHead d h; let s ← prQ d q; pure s!"{hd} {s}"
   | .update ws t sets wh ob lm => do
       let w ← prWithPrefix d "\n\n" ws
-      let ss ← mapM' (fun (cv : String × Expr) => (prE d cv.2).map fun x => s!"{cv.1} = {x}") sets
+      let ss ← mapM' (fun (cv : String × Expr) => (prE d cv.2).map fun x => s!"`{cv.1}` = {x}") sets
       let tl ← prTail d wh ob lm
       pure s!"{w}UPDATE {tn t} SET {joinS ", " ss}{tl}"
   | .delete t wh ob lm => do let tl ← prTail d wh ob lm; pure s!"DELETE FROM {tn t} {tl}"
